@@ -2,6 +2,8 @@ SPECIFICATION GSpec
 CONSTANTS
   SameFs = TRUE
   LinkBackup = FALSE
+  ClockSteps = FALSE
+  StaleCheck = FALSE
 INVARIANTS
   Emit
   TypeOK
